@@ -76,7 +76,7 @@ const (
 )
 
 // dpFaultAlphabet: the operations of the error-path search.
-var dpFaultAlphabet = []int{dpLoadBoth, dpCounts, dpRepair, dpRepairTorn1, dpRepairTorn2, dpLoadFilesFault1, dpLoadParityFault2, dpLoadParityFault3, dpDelA, dpDelB, dpChangeA}
+var dpFaultAlphabet = []int{dpLoadBoth, dpCounts, dpRepair, dpRepairTorn1, dpRepairTorn2, dpLoadFilesFault1, dpLoadParityFault2, dpLoadParityFault3, dpDelA, dpDelB, dpChangeA, dpDelVol0, dpRestoreVol0}
 
 var dpNames = []string{"LoadFileData", "LoadParityData", "Counts", "Repair", "Repair(check)", "delete a", "change a", "delete b", "restore data files", "delete first recovery file", "restore first recovery file", "LoadFileData+LoadParityData", "Repair(1st file write torn)", "Repair(2nd file write torn)", "LoadFileData(1st read fails)", "LoadParityData(2nd read fails)", "LoadParityData(3rd read fails)"}
 
@@ -84,7 +84,7 @@ func decProtoGen(fmtName string, depth int, disk bool, emit func(*decProtoCase))
 	if !disk {
 		for _, a := range dpFaultAlphabet {
 			for _, b := range dpFaultAlphabet {
-				emit(&decProtoCase{Fmt: fmtName, Prefix: []int{a, b}, Depth: depth, Fault: true})
+				emit(&decProtoCase{Fmt: fmtName, Prefix: []int{a, b}, Depth: depth - 1, Fault: true}) // 13 operations: one step shorter than the main alphabet
 			}
 		}
 	}
